@@ -41,4 +41,5 @@ def changed_files():
 
 def deepen(prop):
     """files that differ from the validated sources and can affect `prop`"""
+    if os.environ.get('VERIF_FORCE_DEEPEN'): return ['(forced by VERIF_FORCE_DEEPEN: self-test of the deepened path on an unchanged tree)']
     return [f for f in changed_files() if prop in affects(f)]
